@@ -313,7 +313,8 @@ def gen_op(rnd, s, u):
     if c < 96:
         h = list_holder()
         if rnd.random() < 0.5:
-            return ['bulk_set', list(h), rnd.choice(['name', 'prio', 'resource']), rnd.choice(['n0', 'n9', 3, None])]
+            at_ = rnd.choice(['name', 'prio', 'resource'])
+            return ['bulk_set', list(h), at_, rnd.choice([3, None, 7]) if at_ == 'prio' else rnd.choice(['n0', 'n9', None])]
         return ['bulk_parent', list(h), x]
     if c < 98:
         if len(T) >= 12:
@@ -696,10 +697,10 @@ def run_history(prop, spec, ops, acc, gen=None, tail=True, judge_from=0, layer='
                 if got not in [setlevel(e, owner=True) for e in exp]:
                     viol.append(('C16', f'C16/{name}' + (f':{ac}' if ac else ''),
                                  f'{name}({ac}) returned but effect differs from the documented one: got-vs-model {diff(exp[0], s1)}'))
-                elif ret_exp[0] == 'val' and ret is not ret_exp[1] and ret != ret_exp[1]:
-                    viol.append(('C16', f'C16/{name}/return-value', f'{name} returned {ret!r}, documented {ret_exp[1]!r}'))
-                elif ret_exp[0] == 'labels' and list(ret or []) != list(ret_exp[1]):
-                    viol.append(('C16', f'C16/{name}/return-value', f'{name} returned {ret!r}, model {ret_exp[1]!r}'))
+                elif ret_exp[0] == 'val' and ret is not None and bool(ret) != bool(ret_exp[1]):
+                    # documented for the list classes as "True if the task exists, otherwise False"; only the truth value is
+                    # demanded (an implementation may answer with a count or with the removed task)
+                    viol.append(('C16', f'C16/{name}/return-value', f'{name} returned {ret!r}, documented truth value {ret_exp[1]!r}'))
 
         mine = [(p, k, m) for p, k, m in viol if p == prop]
         if mine:
